@@ -105,6 +105,27 @@ func (c *c09) Cases(tier string, seed int64) []core.Case {
 	// the exported kernels as the first field operation of fresh processes
 	// started with different GOMAXPROCS values
 	cs = append(cs, core.MkCase("fresh-process-gomaxprocs", c09Params{Mode: "fresh", Path: "exported-ssse3-on", Seed: r.Int63()}))
+	// the exported entry points in the GOARCH=386 build of the worker: there
+	// they reach the portable kernels of the non-amd64 source files
+	{
+		p := "exported-ssse3-off"
+		var a386 []core.Case
+		for i := 0; i < 4; i++ {
+			consts := []int{0, 1, 2, 3, 255, 256, 257, 0x100b, 0x8000, 0xfffe, 0xffff}
+			for len(consts) < 64 {
+				consts = append(consts, r.Intn(65536))
+			}
+			a386 = append(a386, core.MkCase(fmt.Sprintf("386:values-b%d", i), c09Params{Mode: "values", Path: p, Consts: consts, Seed: r.Int63()}))
+		}
+		a386 = append(a386, core.MkCase("386:lengths-0..320", c09Params{Mode: "lengths", Path: p, Lens: small[:161], Seed: r.Int63()}))
+		a386 = append(a386, core.MkCase("386:lengths-65538", c09Params{Mode: "lengths", Path: p, Lens: []int{65538}, Seed: r.Int63()}))
+		a386 = append(a386, core.MkCase("386:align", c09Params{Mode: "align", Path: p, Lens: []int{2, 30, 32, 34, 66, 130}, Seed: r.Int63()}))
+		a386 = append(a386, core.MkCase("386:concurrent", c09Params{Mode: "concurrent", Path: p, Lens: []int{2, 30, 34, 66, 318}, Seed: r.Int63()}))
+		for _, cc := range a386 {
+			cc.Arch386 = true
+			cs = append(cs, cc)
+		}
+	}
 	// align
 	for _, p := range c09Paths {
 		cs = append(cs, core.MkCase(fmt.Sprintf("align-%s", p), c09Params{Mode: "align", Path: p, Full: tier == "thorough", Lens: []int{2, 30, 32, 34, 62, 64, 66, 96, 130, 318}, Seed: r.Int63()}))
